@@ -89,6 +89,10 @@ def dec_value(v):
         return np.median
     if k == "array":
         return np.ones(N_ROWS)
+    if k == "array_nonfinite":
+        a = np.ones(N_ROWS)
+        a[N_ROWS // 2] = [np.nan, np.inf, -np.inf][int(v[1]) % 3]
+        return a
     raise ValueError(v)
 
 
@@ -193,6 +197,7 @@ def classify(e, loop_pos=None):
     elif qn.endswith("._fit_lsq"):
         if qn.startswith("ExponentiatedWeibullDistribution"):
             tag = "UnknownWeights" if msg.startswith("Unsupported value for weights") else \
+                  "WeightsNonFinite" if "infs or NaNs" in msg else \
                   "LsqFixedNotImplemented" if cls == "NotImplementedError" else "?"
         else:
             tag = "LsqNotImplemented" if cls == "NotImplementedError" else "?"
@@ -229,6 +234,12 @@ def classify(e, loop_pos=None):
         tag = "NonFinitePdf" if "infs or NaNs" in msg else "?"
     elif qn == "MultivariateModel.cdf":
         tag = "NonFiniteCdf" if "infs or NaNs" in msg else "?"
+    elif qn == "TransformedModel.cdf":
+        tag = "NonFiniteTransformedCdf" if "infs or NaNs" in msg else "?"
+    elif qn == "TransformedModel.empirical_cdf":
+        tag = "NonFiniteEmpiricalCdf" if "infs or NaNs" in msg else "?"
+    elif qn == "HighestDensityContour.cumsum_biggest_until":
+        tag = "CumsumNan" if msg.startswith("array contains nan") else "?"
     elif qn in ("DirectSamplingContour._compute", "AndContour._compute", "OrContour._compute"):
         k = {"DirectSamplingContour": "CDirectSampling", "AndContour": "CAnd", "OrContour": "COr"}[qn.split(".")[0]]
         tag = ("Not2D", k) if "only" in msg and "two dimensions" in msg else "?"
@@ -248,6 +259,36 @@ class _NoIntegration:
         raise _ReachedIntegration()
 
 
+def _obs(e, phase, loop_pos=None):
+    return dict(zip(("exc", "site", "tag", "pos"), classify(e, loop_pos=loop_pos)), phase=phase, msg=str(e)[:160])
+
+
+def _ident(x):
+    return x
+
+
+def _jac1(x):
+    return 1.0
+
+
+def points_entry(p):
+    return p.get("entry") or ("cdf" if p.get("cdf") else "pdf")
+
+
+def fit_data(f, data, n):
+    """the data argument of fit: (N, data_cols) array, or one of the ill-shaped variants"""
+    shape = f.get("data_shape")
+    if shape == "1d_N":
+        d = data[:, 0].copy()
+    elif shape == "1d_n":
+        d = data[0, :n].copy()
+    elif shape == "3d":
+        d = np.stack([data[:, :n], 1.1 * data[:, :n], 0.9 * data[:, :n]], axis=1)      # (N, 3, n)
+    else:
+        d = data[:, : f["data_cols"]]
+    return d.tolist() if f.get("as_list") else d
+
+
 def run_real(spec, seed=0):
     """run the session on the real code; returns None (every step returned) or an observation dict"""
     V = _V.get()
@@ -256,36 +297,43 @@ def run_real(spec, seed=0):
     data = data_matrix(seed)
     with warnings.catch_warnings():
         warnings.simplefilter("ignore")
-        # distributions (never part of the comparison: well-formed constructor calls)
-        nan_at = (spec.get("contour") or {}).get("nan_at")
-        dists = [make_dist(V, d, nan_first=(nan_at == i)) if d["has_distribution"] else None for i, d in enumerate(descs)]
-        # phase 0: slicers
-        slicers = [None] * n
-        for i, d in enumerate(descs):
-            if d["intervals"] is not None:
-                try:
-                    slicers[i] = make_slicer(V, d["intervals"])
-                except Exception as e:  # noqa
-                    return dict(zip(("exc", "site", "tag", "pos"), classify(e, loop_pos=i)), phase="PhSlicers", msg=str(e)[:160])
-        # phase 1: model
-        dd = []
-        for i, d in enumerate(descs):
-            x = {}
-            if d["has_distribution"]:
-                x["distribution"] = dists[i]
-            if d["cond"] is not None:
-                x["conditional_on"] = dec_value(d["cond"])
-            if d["has_parameters"]:
-                x["parameters"] = {p: _dep(V) for p in d["dependent"]}
-            for k in d["other_keys"]:
-                x[k] = 1
-            if d["intervals"] is not None:
-                x["intervals"] = slicers[i]
-            dd.append(x)
+        if spec.get("predefined") is not None:
+            dd = predefined_dd(V, spec["predefined"])
+        else:
+            # distributions (never part of the comparison: well-formed constructor calls)
+            nan_at = (spec.get("contour") or {}).get("nan_at")
+            dists = [make_dist(V, d, nan_first=(nan_at == i)) if d["has_distribution"] else None for i, d in enumerate(descs)]
+            # phase 0: slicers
+            slicers = [None] * n
+            for i, d in enumerate(descs):
+                if d["intervals"] is not None:
+                    try:
+                        slicers[i] = make_slicer(V, d["intervals"])
+                    except Exception as e:  # noqa
+                        return _obs(e, "PhSlicers", loop_pos=i)
+            # phase 1: model
+            dd = []
+            for i, d in enumerate(descs):
+                x = {}
+                if d["has_distribution"]:
+                    x["distribution"] = dists[i]
+                if d["cond"] is not None:
+                    x["conditional_on"] = dec_value(d["cond"])
+                if d["has_parameters"]:
+                    x["parameters"] = {p: _dep(V) for p in d["dependent"]}
+                for k in d["other_keys"]:
+                    x[k] = 1
+                if d["intervals"] is not None:
+                    x["intervals"] = slicers[i]
+                dd.append(x)
+            if spec.get("descs_as_tuple"):
+                dd = tuple(dd)
         try:
             model = V["J"].GlobalHierarchicalModel(dd)
         except Exception as e:  # noqa
-            return dict(zip(("exc", "site", "tag", "pos"), classify(e)), phase="PhModel", msg=str(e)[:160])
+            return _obs(e, "PhModel")
+        # the same model behind a TransformedModel (identity transformation): fit / pdf / contours delegate
+        front = V["J"].TransformedModel(model, _ident, _ident, _jac1) if spec.get("via") == "transformed" else model
         # phase 2: fit
         if spec.get("fit") is not None:
             f = spec["fit"]
@@ -295,6 +343,8 @@ def run_real(spec, seed=0):
                 for fd in f["descs"]:
                     if fd is None:
                         fds.append(None)
+                    elif "_raw_str" in fd:
+                        fds.append(fd["_raw_str"])
                     else:
                         x = {}
                         if "method" in fd:
@@ -303,26 +353,38 @@ def run_real(spec, seed=0):
                             x["weights"] = dec_value(fd["weights"])
                         fds.append(x)
             try:
-                model.fit(data[:, : f["data_cols"]], fds)
+                front.fit(fit_data(f, data, n), fds)
             except Exception as e:  # noqa
-                return dict(zip(("exc", "site", "tag", "pos"), classify(e)), phase="PhFit", msg=str(e)[:160])
+                return _obs(e, "PhFit")
         # phase 3: evaluation
         if spec.get("points") is not None:
             p = spec["points"]
+            entry = points_entry(p)
             pts = np.array(p["pts"], dtype=float)
-            # a rejected call must raise before any integration: for non-finite points the integrator that cdf would
-            # call is replaced (from outside) by a stub; reaching it means the call went on to compute a result
-            stub = p["cdf"] and not np.isfinite(pts).all()
+            arg = p["pts"] if p.get("as_list") else pts
+            tm = front if spec.get("via") == "transformed" else V["J"].TransformedModel(model, _ident, _ident, _jac1)
+            # a rejected call must raise before any integration: the integrator that cdf would call is replaced (from
+            # outside) by a stub unless the call is a cheap well-formed one; reaching it means that validation passed
+            # and the call went on to compute a result
             J = V["J"]
             real_integrate = J.integrate
-            if stub:
+            if entry in ("cdf", "tm_cdf") and not (np.isfinite(pts).all() and n == 1):
                 J.integrate = _NoIntegration()
             try:
-                (model.cdf if p["cdf"] else model.pdf)(pts)
+                if entry == "pdf":
+                    model.pdf(arg)
+                elif entry == "cdf":
+                    model.cdf(arg)
+                elif entry == "tm_pdf":
+                    tm.pdf(pts)
+                elif entry == "tm_cdf":
+                    tm.cdf(arg)
+                else:
+                    tm.empirical_cdf(arg, sample=data[:50, :n])
             except _ReachedIntegration:
                 pass
             except Exception as e:  # noqa
-                return dict(zip(("exc", "site", "tag", "pos"), classify(e)), phase="PhEval", msg=str(e)[:160])
+                return _obs(e, "PhEval")
             finally:
                 J.integrate = real_integrate
         # phase 4: contour
@@ -331,22 +393,134 @@ def run_real(spec, seed=0):
             C = V["C"]
             try:
                 if c["kind"] == "hdc":
-                    lim = None if c["limits"] is None else [tuple(x) if isinstance(x, list) else x for x in c["limits"]]
-                    C.HighestDensityContour(model, 0.3, lim, c["deltas"])
+                    lim = c["limits"]
+                    if lim is not None:
+                        how = c.get("limits_as", "tuples")
+                        lim = [tuple(x) if (isinstance(x, list) and how != "lists") else x for x in lim]
+                        if how == "ndarray" and all(isinstance(x, tuple) and len(x) == 2 for x in lim):
+                            lim = np.array(lim, dtype=float)
+                    dl = c["deltas"]
+                    if isinstance(dl, list) and c.get("deltas_as") == "ndarray":
+                        dl = np.array(dl, dtype=float)
+                    elif isinstance(dl, list) and c.get("deltas_as") == "tuple":
+                        dl = tuple(dl)
+                    C.HighestDensityContour(model, c.get("alpha", 0.3), lim, dl)
                 elif c["kind"] == "iform":
-                    mdl = {"ghm": model, "str": "model", "int": 3}[c["model"]]
+                    mdl = {"ghm": model, "transformed": front, "str": "model", "int": 3, "none": None}[c["model"]]
                     C.IFORMContour(mdl, 0.1, n_points=8)
                 else:
                     cls = {"direct": C.DirectSamplingContour, "and": C.AndContour, "or": C.OrContour}[c["kind"]]
                     smp = None
-                    if n == 2:
-                        smp = model.draw_sample(2000, random_state=seed)
-                    elif c.get("sample") == "two_columns":
-                        smp = data[:, :2].copy()      # caller-supplied sample with exactly two columns
-                    cls(model, 0.1, sample=smp)
+                    if c.get("sample") == "two_columns":
+                        # caller-supplied sample with exactly two columns
+                        smp = model.draw_sample(2000, random_state=seed) if n == 2 else data[:, :2].copy()
+                    cls(front, 0.1, sample=smp)
             except Exception as e:  # noqa
-                return dict(zip(("exc", "site", "tag", "pos"), classify(e)), phase="PhContour", msg=str(e)[:160])
+                return _obs(e, "PhContour")
     return None
+
+
+# ------------------------------------------------------------------ predefined models as carriers
+GETTERS = ["get_DNVGL_Hs_Tz", "get_DNVGL_Hs_U", "get_OMAE2020_Hs_Tz", "get_OMAE2020_V_Hs", "get_Windmeier_EW_Hs_S",
+           "get_Nonzero_EW_Hs_S"]
+KNOWN_KEYS = ("distribution", "intervals", "conditional_on", "parameters")
+
+
+def predefined_dd(V, pd):
+    """the REAL dist_descriptions returned by a predefined getter, mutated at the dictionary level"""
+    import virocon.predefined as P
+    dd = [dict(x) for x in getattr(P, pd["getter"])()[0]]
+    for op in pd["ops"]:
+        k, i = op[0], op[1]
+        d = dd[i]
+        if k == "del":
+            d.pop(op[2], None)
+        elif k == "add_key":
+            d[op[2]] = 1
+        elif k == "add_param":
+            d["parameters"] = dict(d["parameters"], **{op[2]: _dep(V)})
+        elif k == "drop_param":
+            d["parameters"] = {q: v for q, v in d["parameters"].items() if q != op[2]}
+        elif k == "fix":
+            d["distribution"] = type(d["distribution"])(**{"f_" + op[2]: op[3]})
+        elif k == "cond":
+            d["conditional_on"] = dec_value(op[2])
+            if "parameters" not in d:
+                dist = d["distribution"]
+                d["parameters"] = {q: _dep(V) for q in dist.parameters if getattr(dist, "f_" + q) is None}
+        else:
+            raise ValueError(op)
+    return dd
+
+
+def abstract_dd(V, dd):
+    """real dist_descriptions -> the description records of the model (same format as spec['descs'])"""
+    I = V["I"]
+    rev = {v: k for k, v in CLASSNAME.items()}
+    out = []
+    for d in dd:
+        x = {"family": "Weibull", "has_distribution": "distribution" in d, "fixed": [], "cond": None,
+             "has_parameters": "parameters" in d, "dependent": list(d.get("parameters", {})),
+             "other_keys": sorted(k for k in d if k not in KNOWN_KEYS), "intervals": None}
+        if "distribution" in d:
+            dist = d["distribution"]
+            x["family"] = rev[type(dist).__name__]
+            x["fixed"] = [q for q in dist.parameters if getattr(dist, "f_" + q) is not None]
+        if "conditional_on" in d:
+            c = d["conditional_on"]
+            x["cond"] = (["none"] if c is None else ["int", int(c)] if isinstance(c, (int, np.integer)) and not isinstance(c, bool)
+                         else ["num", c] if isinstance(c, float) else ["str", str(c)])
+        if "intervals" in d:
+            sl = d["intervals"]
+            kind = ("width" if isinstance(sl, I.WidthOfIntervalSlicer) else
+                    "number" if isinstance(sl, I.NumberOfIntervalsSlicer) else "points")
+            r = sl.reference
+            ref = ["str", r] if isinstance(r, str) else ["callable"] if callable(r) else ["none"]
+            x["intervals"] = {"kind": kind, "param": {"width": getattr(sl, "width", 0), "number": getattr(sl, "n_intervals", 0),
+                                                        "points": getattr(sl, "n_points", 0)}[kind],
+                              "kwargs": {}, "ref": ref, "min_n_points": int(sl.min_n_points), "min_n_intervals": int(sl.min_n_intervals)}
+        out.append(x)
+    return out
+
+
+def predefined_cases():
+    """every predefined model, well-formed and with every description malformation at every position"""
+    V = _V.get()
+    import virocon.predefined as P
+    for g in GETTERS:
+        dd0 = getattr(P, g)()[0]
+        n = len(dd0)
+        todo = [([], [])]
+        for i, d in enumerate(dd0):
+            dist = d["distribution"]
+            free = [q for q in dist.parameters if getattr(dist, "f_" + q) is None]
+            m = lambda cls: {"cls": cls, "pos": i, "phase": "PhModel", "inj": "predefined", "group": "other"}  # noqa
+            h = lambda cls: {"cls": cls, "pos": i, "phase": "PhModel", "inj": "predefined", "group": "hierarchy"}  # noqa
+            todo.append(([("del", i, "distribution")], [m("missing_distribution")]))
+            todo.append(([("add_key", i, "interval")], [m("unknown_key")]))
+            todo.append(([("add_key", i, "fit")], [m("unknown_key")]))
+            if "conditional_on" in d:
+                todo.append(([("del", i, "parameters")], [m("conditional_without_parameters")]))
+                todo.append(([("add_param", i, "foo")], [m("unknown_parameter_name")]))
+                todo.append(([("add_param", i, "f_" + free[0])], [m("unknown_parameter_name")]))
+                for q in d["parameters"]:
+                    todo.append(([("drop_param", i, q)], [m("parameter_neither_fixed_nor_dependent")]))
+                    todo.append(([("fix", i, q, 1.5)], [m("parameter_fixed_and_dependent")]))
+                    todo.append(([("fix", i, q, 0)], [m("parameter_fixed_and_dependent")]))
+                for c, cls in ((["int", i], "conditional_on_itself"), (["int", n], "conditional_on_nonexistent"),
+                               (["int", n + 4], "conditional_on_nonexistent"), (["int", -1], "conditional_on_negative"),
+                               (["none"], "conditional_on_not_an_index"), (["num", 0.0], "conditional_on_not_an_index"),
+                               (["str", "0"], "conditional_on_not_an_index")):
+                    todo.append(([("cond", i, c)], [h(cls)]))
+            elif i == 0:
+                for c in (["int", 0], ["none"], ["int", 1]):
+                    todo.append(([("cond", 0, c)], [h("first_variable_conditional")]))
+            else:
+                todo.append(([("cond", i, ["int", 0]), ("del", i, "parameters")], [m("conditional_without_parameters")]))
+        for ops, mal in todo:
+            pd = {"getter": g, "ops": [list(o) for o in ops]}
+            yield {"descs": abstract_dd(V, predefined_dd(V, pd)), "fit": None, "points": None, "contour": None,
+                   "mal": mal, "predefined": pd}
 
 
 # ------------------------------------------------------------------ abstraction: spec -> Coq term
@@ -402,7 +576,7 @@ def coq_weights(fd):
         return "WNone"
     if w[0] == "str":
         return {"linear": "WLinear", "quadratic": "WQuadratic", "cubic": "WCubic"}.get(w[1].lower(), "WUnknownStr")
-    return "WArray" if w[0] == "array" else "WScalar"
+    return "WArray" if w[0] == "array" else "WArrayNonFinite" if w[0] == "array_nonfinite" else "WScalar"
 
 
 def coq_fit(spec, seed):
@@ -414,7 +588,7 @@ def coq_fit(spec, seed):
         ds = "None"
     else:
         ds = "(Some [" + "; ".join("None" if fd is None else "(Some (mkfit %s %s %s))" % (
-            "true" if "method" in fd else "false", coq_method(fd), coq_weights(fd)) for fd in f["descs"]) + "])"
+            "true" if ("method" in fd and "_raw_str" not in fd) else "false", coq_method(fd), coq_weights(fd)) for fd in f["descs"]) + "])"
     surv = []
     for c, d in enumerate(spec["descs"]):
         surv.append(surviving(V, d["intervals"], c, seed) if c < f["data_cols"] else 0)
@@ -434,7 +608,7 @@ def coq_contour(c):
         dl = "DNone" if d is None else ("(DList %d)" % len(d) if isinstance(d, (list, tuple)) else "DScalar")
         return "(Some (ReqHDC %s %s %s))" % (lim, dl, "true" if c.get("nan_at") is not None else "false")
     if c["kind"] == "iform":
-        return "(Some (ReqIFORM %s))" % ("MKGlobalHierarchical" if c["model"] == "ghm" else "MKOther")
+        return "(Some (ReqIFORM %s))" % ({"ghm": "MKGlobalHierarchical", "transformed": "MKTransformed"}.get(c["model"], "MKOther"))
     return "(Some (Req2D %s))" % {"direct": "CDirectSampling", "and": "CAnd", "or": "COr"}[c["kind"]]
 
 
@@ -442,7 +616,8 @@ def coq_points(p):
     if p is None:
         return "None"
     rows = p["pts"] if (p["pts"] and isinstance(p["pts"][0], (list, tuple))) else [p["pts"]]
-    return "(Some (%s, [%s]))" % ("true" if p["cdf"] else "false",
+    return "(Some (%s, [%s]))" % ({"pdf": "EvPdf", "cdf": "EvCdf", "tm_pdf": "EvTransformedPdf", "tm_cdf": "EvTransformedCdf",
+                                   "tm_empirical_cdf": "EvEmpiricalCdf"}[points_entry(p)],
                                   "; ".join("[" + "; ".join("(%s)%%float" % vlib.fl(x) for x in row) + "]" for row in rows))
 
 
@@ -459,7 +634,9 @@ SITE_QN = {"GHM_check_dist_descriptions": "GlobalHierarchicalModel._check_dist_d
            "PPI_init": "PointsPerIntervalSlicer.__init__", "Slicer_slice_": "IntervalSlicer.slice_",
            "PPI__slice": "PointsPerIntervalSlicer._slice", "HDC_check_grid": "HighestDensityContour._check_grid",
            "HDC_compute": "HighestDensityContour._compute", "IFORM_init": "IFORMContour.__init__",
-           "GHM_pdf": "GlobalHierarchicalModel.pdf", "MM_cdf": "MultivariateModel.cdf"}
+           "GHM_pdf": "GlobalHierarchicalModel.pdf", "MM_cdf": "MultivariateModel.cdf", "TM_cdf": "TransformedModel.cdf",
+           "TM_empirical_cdf": "TransformedModel.empirical_cdf",
+           "HDC_cumsum_biggest_until": "HighestDensityContour.cumsum_biggest_until"}
 C2D = {"CDirectSampling": "DirectSamplingContour", "CAnd": "AndContour", "COr": "OrContour"}
 
 
@@ -694,7 +871,7 @@ def m_fit_length(spec, i, v):
     if not _need_fit(spec) or i != 0:
         return None
     e = _fit_entries(spec)
-    spec["fit"]["descs"] = e[:-1] if v % 2 == 0 else e + [None]
+    spec["fit"]["descs"] = [e[:-1], e + [None], [], e + [None, {"method": ["str", "mle"]}]][v % 4]
     return {"cls": "fit_descriptions_wrong_length", "pos": 0, "phase": "PhFit"}
 
 
@@ -704,7 +881,7 @@ def m_missing_method(spec, i, v):
     e = _fit_entries(spec)
     if i >= len(e):
         return None
-    e[i] = [{"weights": ["none"]}, {}, {"weights": ["str", "linear"]}][v % 3]
+    e[i] = [{"weights": ["none"]}, {}, {"weights": ["str", "linear"]}, {"_raw_str": "mle"}][v % 4]
     return {"cls": "fit_description_without_method", "pos": i, "phase": "PhFit"}
 
 
@@ -730,7 +907,7 @@ def _set_fit(spec, i, method=None, weights=None):
 
 
 def m_unknown_method(spec, i, v):
-    if not _need_fit(spec) or not _set_fit(spec, i, method=["str", ["foo", "ml", "least squares"][v % 3]]):
+    if not _need_fit(spec) or not _set_fit(spec, i, method=["str", ["foo", "ml", "least squares", "", "mle ", "m.l.e"][v % 6]]):
         return None
     return {"cls": "unknown_fit_method", "pos": i, "phase": "PhFit"}
 
@@ -758,7 +935,8 @@ def m_lsq_unsupported(spec, i, v):
 def m_unknown_weights(spec, i, v):
     if not _need_fit(spec):
         return None
-    if not _set_fit(spec, i, method=["str", ["wlsq", "lsq"][v % 2]], weights=[["str", "foo"], ["str", "quartic"], ["num", 3]][v % 3]):
+    if not _set_fit(spec, i, method=["str", ["wlsq", "lsq"][v % 2]], weights=[["str", "foo"], ["str", "quartic"], ["num", 3], ["array_nonfinite", 0], ["array_nonfinite", 1],
+                                                                              ["array_nonfinite", 2]][v % 6]):
         return None
     if spec["descs"][i]["family"] == "ExpWeibull" and any(p in spec["descs"][i]["fixed"] for p in ("alpha", "beta")):
         pass
@@ -824,23 +1002,27 @@ def m_too_few_intervals(spec, c, v):
     return {"cls": "too_few_intervals", "pos": c, "phase": "PhFit"}
 
 
+EVAL_ENTRIES = ["pdf", "cdf", "tm_cdf", "tm_pdf", "tm_empirical_cdf"]
+
+
 def m_nonfinite_point(spec, i, v):
-    """nan / +inf / -inf at coordinate i, for pdf and for cdf, as one row of a 2-D array and as a single 1-D point"""
+    """nan / +inf / -inf at coordinate i; entry points pdf, cdf, TransformedModel.cdf / pdf / empirical_cdf; as one row
+    of a 2-D array and as a single 1-D point; as ndarray and as nested list"""
     n = len(spec["descs"])
     kind = v % 3
-    cdf = (v // 3) % 2 == 1
-    single = (v // 6) % 2 == 1
+    entry = EVAL_ENTRIES[(v // 3) % 5]
+    single = (v // 15) % 2 == 1
     val = [float("nan"), float("inf"), float("-inf")][kind]
-    if single:
+    if single and entry != "tm_empirical_cdf":
         pts = good_points(n, 1)[0]
         pts[i] = val
     else:
         rows = 2 + (v + i) % 2
         pts = good_points(n, rows)
         pts[(v + i) % rows][i] = val
-    spec["points"] = {"cdf": cdf, "pts": pts}
+    spec["points"] = {"entry": entry, "pts": pts, "as_list": (v + i) % 2 == 1}
     return {"cls": "non_finite_evaluation_point", "pos": i, "phase": "PhEval",
-            "detail": "%s(%s), %s at coordinate %d" % ("cdf" if cdf else "pdf", "single point" if single else "one row of %d" % len(pts),
+            "detail": "%s(%s), %s at coordinate %d" % (entry, "single point" if not isinstance(pts[0], list) else "one row of %d" % len(pts),
                                                         ["nan", "+inf", "-inf"][kind], i)}
 
 
@@ -912,9 +1094,60 @@ def m_iform_model_type(spec, i, v):
     if i != 0:
         return None
     spec["mal"] = [m for m in spec["mal"] if m["phase"] != "PhContour"]     # the contour request is replaced
-    spec["contour"] = {"kind": "iform", "model": ["str", "int"][v % 2]}
+    spec["contour"] = {"kind": "iform", "model": ["str", "int", "none"][v % 3]}
     return {"cls": "iform_model_wrong_type", "pos": 0, "phase": "PhContour"}
 
+
+# ---- classes judged by the oracle only (any exception in the right phase, before a result): values the model does
+# not represent.  HDC grid values belong to "malformed HDC limits/deltas"; ill-shaped data to "data of the wrong
+# dimension"; non-positive slicer sizes go beyond the statement's "unknown slicer options" (kept: they must not start
+# to yield results silently).
+def m_hdc_bad_value(spec, i, v):
+    c = _hdc(spec, 1)                      # deltas as list
+    n = len(spec["descs"])
+    if i >= n:
+        return None
+    k = v % 7
+    what = ["delta zero", "delta negative", "delta nan", "delta inf", "limit nan", "limit inf", "scalar delta zero"][k]
+    if k <= 3:
+        c["deltas"][i] = [0.0, -0.5, float("nan"), float("inf")][k]
+    elif k == 4:
+        c["limits"][i] = [float("nan"), 3.3]
+    elif k == 5:
+        c["limits"][i] = [0.3, float("inf")]
+    else:
+        c["deltas"] = 0
+    return {"cls": "hdc_grid_value_invalid", "pos": i, "phase": "PhContour", "detail": what, "oracle_only": True}
+
+
+def m_data_not_2d(spec, i, v):
+    if not _need_fit(spec) or i != 0:
+        return None
+    spec["fit"]["data_shape"] = ["1d_N", "1d_n"][v % 2]
+    return {"cls": "data_one_dimensional", "pos": 0, "phase": "PhFit", "oracle_only": True,
+            "detail": "1-D data of length %s" % ("N" if v % 2 == 0 else "n_dim")}
+
+
+def m_data_3d(spec, i, v):
+    if not _need_fit(spec) or i != 0:
+        return None
+    spec["fit"]["data_shape"] = "3d"
+    return {"cls": "data_three_dimensional", "pos": 0, "phase": "PhFit", "oracle_only": True, "detail": "data of shape (N, 3, n_dim)"}
+
+
+def m_slicer_size(spec, c, v):
+    if not _need_fit(spec) or not _conditioning(spec, c) or spec["fit"]["data_cols"] <= c:
+        return None
+    s = _ensure_slicer(spec, c, v)
+    kind = ["width", "number", "points"][v % 3]
+    s["kind"] = kind
+    s["ref"] = ["callable"] if kind == "points" else ["str", "center"]
+    s["param"] = {"width": [0, -0.5, float("nan")], "number": [0, -2, 0], "points": [0, -3, 10 * N_ROWS]}[kind][(v // 3) % 3]
+    return {"cls": "slicer_size_not_positive", "pos": c, "phase": "PhFit", "oracle_only": True,
+            "detail": "%s slicer with size %r" % (kind, s["param"])}
+
+
+ORACLE_INJ = [m_hdc_bad_value, m_data_not_2d, m_data_3d, m_slicer_size]
 
 MODEL_INJ = [m_missing_distribution, m_cond_without_parameters, m_unknown_key, m_unknown_param, m_not_defined, m_both_given,
              m_first_conditional, m_cond_self, m_cond_later, m_cond_nonexistent, m_cond_negative, m_cond_nonint]
@@ -923,10 +1156,12 @@ SLICER_INJ = [m_slicer_unknown_kwarg, m_ppi_ref_not_callable, m_unknown_referenc
 LATE_INJ = [m_nonfinite_point, m_hdc_limits_length, m_hdc_deltas_length, m_hdc_limit_tuple, m_hdc_limit_scalar, m_hdc_nan,
             m_not_2d, m_iform_model_type]
 ALL_INJ = MODEL_INJ + FIT_INJ + SLICER_INJ + LATE_INJ
-INJ_BY_NAME = {f.__name__: f for f in ALL_INJ}
-NEEDS_FIT = set(f.__name__ for f in FIT_INJ) | {"m_unknown_reference", "m_reference_type", "m_too_few_intervals"}
+INJ_BY_NAME = {f.__name__: f for f in ALL_INJ + ORACLE_INJ}
+NEEDS_FIT = set(f.__name__ for f in FIT_INJ) | {"m_unknown_reference", "m_reference_type", "m_too_few_intervals",
+                                                 "m_data_not_2d", "m_data_3d", "m_slicer_size"}
 # number of variants of the injected value (default 3)
-NVARIANTS = {"m_nonfinite_point": 12, "m_not_2d": 6}
+NVARIANTS = {"m_hdc_bad_value": 7, "m_data_not_2d": 2, "m_data_3d": 1, "m_slicer_size": 9, "m_nonfinite_point": 30, "m_not_2d": 6, "m_unknown_method": 6, "m_fit_length": 4, "m_missing_method": 4,
+             "m_unknown_weights": 6, "m_iform_model_type": 3}
 
 
 GROUP = {"m_first_conditional": "hierarchy", "m_cond_self": "hierarchy", "m_cond_later": "hierarchy",
@@ -953,7 +1188,41 @@ def build_case(n, struct, pos_fams, injections, variant):
         spec["mal"].append(lab)
     # keep the later phases cheap and deterministic: an HDC / IFORM run on a *fitted* model is never requested
     spec["gen"] = {"n": n, "struct": list(struct), "fams": list(pos_fams), "inj": [list(x) for x in injections], "variant": variant}
+    if variant % 6 == 5:
+        spec["via"] = "transformed"       # fit / contours are called on a TransformedModel wrapping the model
+    if any(m.get("oracle_only") for m in spec["mal"]):
+        spec["oracle_only"] = True
     return spec
+
+
+def control_of(spec):
+    """the well-formed neighbour of a session with one malformation: same dimension, hierarchy, families and variant,
+    the same entry points called (fit / evaluation entry / contour kind) -- must NOT be rejected"""
+    g = spec.get("gen")
+    if g is None:
+        return None
+    n = g["n"]
+    c = base_spec(n, tuple(g["struct"]), g["fams"], g["variant"], with_fit=spec["fit"] is not None)
+    if spec.get("via"):
+        c["via"] = spec["via"]
+    if spec["points"] is not None:
+        p = spec["points"]
+        single = not isinstance(p["pts"][0], list)
+        c["points"] = {"entry": points_entry(p), "pts": good_points(n, 1)[0] if single else good_points(n, len(p["pts"])),
+                       "as_list": p.get("as_list", False)}
+    if spec["contour"] is not None and spec["fit"] is None:
+        k = spec["contour"]
+        if k["kind"] == "hdc":
+            c["contour"] = good_hdc(n, g["variant"])
+            for key in ("limits_as", "deltas_as"):
+                if key in k:
+                    c["contour"][key] = k[key]
+        elif k["kind"] == "iform":
+            c["contour"] = {"kind": "iform", "model": "ghm"}
+        elif n == 2:
+            c["contour"] = dict(k)
+    c["gen"] = dict(g, inj=[], control=True)
+    return c
 
 
 def expected_phase(spec):
@@ -966,8 +1235,9 @@ def expected_phase(spec):
 def oracle(spec, real):
     """None if the property holds for this session, else (signature, message)"""
     exp = expected_phase(spec)
-    if real is not None and real["tag"] == "?" and real["site"].endswith("._fit_mle"):
-        return "unjudgeable"      # the fitting engine failed: says nothing about validation
+    if real is not None and real["tag"] == "?" and real["site"].endswith("._fit_mle") and \
+            (exp is None or PHASES.index(real["phase"]) < PHASES.index(exp)):
+        return "unjudgeable"      # the fitting engine failed on well-formed input: says nothing about validation
     if exp is None:
         if real is not None:
             return ({"clause": "well-formed-rejected", "site": real["site"]},
@@ -993,7 +1263,7 @@ def oracle(spec, real):
 def shrink(spec, sig, seed):
     """smallest session (fewest dimensions, one malformation) of the same class that still fails the same way"""
     inj = [m["inj"] for m in spec["mal"] if m["cls"] == sig.get("malformation")]
-    if not inj:
+    if not inj or inj[0] not in INJ_BY_NAME:
         return spec
     for n in range(1, 5):
         for struct in structures(n):
@@ -1011,8 +1281,212 @@ def shrink(spec, sig, seed):
     return spec
 
 
+# ------------------------------------------------------------------ the entry points below the model, called directly
+def unit_cases(full):
+    """ConditionalDistribution(...), Distribution.fit(...), slicer constructors + slice_, cumsum_biggest_until: every
+    family x every fixed / dependent partition, every method x weights combination, every slicer option combination.
+    'bad' is the property's verdict (executable restatement), used by the oracle."""
+    out = []
+    for fam in FAMILIES:
+        ps = PARAMS[fam]
+        subsets = [[p for k, p in enumerate(ps) if m >> k & 1] for m in range(2 ** len(ps))]
+        # U1 ConditionalDistribution: all partitions, with and without an unknown name
+        for fixed in subsets:
+            for dep in subsets:
+                for extra in ([], ["foo"], ["f_" + ps[0]]):
+                    if extra and not full and (len(fixed) + len(dep)) % 2:
+                        continue
+                    bad = bool(extra) or any((p in fixed) == (p in dep) for p in ps)
+                    out.append({"unit": "cond", "family": fam, "fixed": fixed, "dependent": dep + extra,
+                                "fixzero": ps[0] if (len(dep) % 2 and ps[0] in fixed) else None, "bad": bad})
+        # U2 Distribution.fit
+        fixsets = [[], [ps[-1]]] + (subsets if fam == "ExpWeibull" else [])
+        methods = [["str", "mle"], ["str", "MLE"], ["str", "lsq"], ["str", "WLSQ"], ["str", "foo"], ["str", ""], ["str", "mle "],
+                   ["num", 3], ["none"]]
+        weights = [["none"], ["str", "linear"], ["str", "Quadratic"], ["str", "CUBIC"], ["str", "foo"], ["str", ""], ["num", 3],
+                   ["array"], ["array_nonfinite", 0], ["array_nonfinite", 1]]
+        for fixed in fixsets:
+            if len(fixed) == len(ps):
+                continue
+            for m in methods:
+                for w in weights:
+                    is_mle = m[0] == "str" and m[1].lower() == "mle"
+                    is_lsq = m[0] == "str" and m[1].lower() in ("lsq", "wlsq")
+                    if is_mle and w not in (["none"], ["str", "foo"]):
+                        continue            # weights are ignored by mle: two witnesses suffice
+                    if not (is_mle or is_lsq) and w not in (["none"], ["str", "linear"]):
+                        continue
+                    w_ok = w[0] in ("none", "array") or (w[0] == "str" and w[1].lower() in ("linear", "quadratic", "cubic"))
+                    f_ok = fixed == [] or ("delta" in fixed and "alpha" not in fixed and "beta" not in fixed)
+                    bad = not (is_mle or (is_lsq and fam == "ExpWeibull" and w_ok and f_ok))
+                    out.append({"unit": "fit", "family": fam, "fixed": fixed, "method": m, "weights": w, "bad": bad})
+    # U3 slicers
+    for kind, param in (("width", 0.5), ("number", 4), ("points", 120)):
+        for kw in ({}, {"foo": 1}, {"min_points": 3}):
+            for ref in (["str", "center"], ["str", "LEFT"], ["str", "Right"], ["str", "middle"], ["str", ""], ["callable"], ["none"], ["num", 1]):
+                for mni in (0, "k", "k+1", 50):
+                    out.append({"unit": "slicer", "slicer": {"kind": kind, "param": param, "kwargs": kw, "ref": ref,
+                                                             "min_n_points": 15, "min_n_intervals": mni}})
+    # U4 cumsum_biggest_until
+    for cells in ([0.5, 0.3, 0.2], [0.5, float("nan"), 0.2], [float("nan")], [[0.4, 0.3], [0.2, 0.1]], [[0.4, float("nan")], [0.2, 0.1]],
+                  [0.25] * 4, [0.3, 0.3, 0.3, 0.1]):
+        flat = [x for r in cells for x in (r if isinstance(r, list) else [r])]
+        out.append({"unit": "cumsum", "cells": cells, "bad": any(x != x for x in flat)})
+    return out
+
+
+def _resolve_slicer(u, seed):
+    s = dict(u["slicer"])
+    k = surviving(_V.get(), dict(s, kwargs={}, min_n_intervals=0, ref=["callable"] if s["kind"] == "points" else ["str", "center"]), 0, seed)
+    if s["min_n_intervals"] == "k":
+        s["min_n_intervals"] = k
+    elif s["min_n_intervals"] == "k+1":
+        s["min_n_intervals"] = k + 1
+    eff = min(s["param"], s["min_n_intervals"]) if s["kind"] == "number" else s["min_n_intervals"]
+    ref_ok = (s["ref"][0] == "callable") if s["kind"] == "points" else \
+        (s["ref"][0] == "callable" or (s["ref"][0] == "str" and s["ref"][1].lower() in ("center", "left", "right")))
+    bad = bool(s["kwargs"]) or not ref_ok or k < eff
+    return s, k, bad
+
+
+def run_unit(u, seed=0):
+    V = _V.get()
+    data = data_matrix(seed)
+    with warnings.catch_warnings():
+        warnings.simplefilter("ignore")
+        try:
+            if u["unit"] == "cond":
+                d = {"family": u["family"], "fixed": u["fixed"], "fixzero": u.get("fixzero")}
+                V["D"].ConditionalDistribution(make_dist(V, d), {p: _dep(V) for p in u["dependent"]})
+            elif u["unit"] == "fit":
+                dist = make_dist(V, {"family": u["family"], "fixed": u["fixed"]})
+                dist.fit(data[:, 0], dec_value(u["method"]), dec_value(u["weights"]))
+            elif u["unit"] == "slicer":
+                s, _, _ = _resolve_slicer(u, seed)
+                make_slicer(V, s).slice_(data[:, 0])
+            else:
+                V["C"].HighestDensityContour.cumsum_biggest_until(np.array(u["cells"], dtype=float), 0.55)
+        except Exception as e:  # noqa
+            o = _obs(e, "unit")
+            if u["unit"] == "slicer" and o["site"].endswith(".__init__"):
+                o["pos"] = 0
+            return o
+    return None
+
+
+def coq_unit(u, seed):
+    if u["unit"] == "cond":
+        return "check_cond 0 (mkdesc true %s %s (Some (CInt 0%%Z)) true %s [] None)" % (u["family"], slist(u["fixed"]), slist(u["dependent"]))
+    if u["unit"] == "fit":
+        fd = {"method": u["method"], "weights": u["weights"]}
+        return "dispatch 0 %s %s %s %s" % (u["family"], slist(u["fixed"]), coq_method(fd), coq_weights(fd))
+    if u["unit"] == "slicer":
+        s, k, _ = _resolve_slicer(u, seed)
+        return "and_then (validate_slicer_init 0 %s) (validate_slice 0 %s %d)" % (coq_slicer(s), coq_slicer(s), k)
+    flat = [x for r in u["cells"] for x in (r if isinstance(r, list) else [r])]
+    return "validate_no_nan_f [%s]" % "; ".join("(%s)%%float" % vlib.fl(x) for x in flat)
+
+
+def unit_model_obs(term, u):
+    if term is None:
+        return None
+    exc, site, tag, pos = term[1]
+    if site == "Dist_fit_lsq":
+        qn = ("ScipyDistribution" if u["family"] == "ScipyGamma" else CLASSNAME[u["family"]]) + "._fit_lsq"
+    elif site == "Slicer__slice":
+        qn = {"width": "WidthOfIntervalSlicer", "number": "NumberOfIntervalsSlicer"}[u["slicer"]["kind"]] + "._slice"
+    else:
+        qn = SITE_QN[site]
+    return {"phase": "unit", "exc": exc, "site": qn, "tag": tag, "pos": pos}
+
+
+def unit_oracle(u, real, seed):
+    bad = _resolve_slicer(u, seed)[2] if u["unit"] == "slicer" else u["bad"]
+    if real is not None and real["tag"] == "?" and real["site"].endswith("._fit_mle") and not bad:
+        return "unjudgeable"
+    what = {k: v for k, v in u.items() if k != "bad"}
+    if bad and real is None:
+        return ({"clause": "accepted", "group": "direct-call", "malformation": "unit_" + u["unit"]},
+                "ill-formed direct call is accepted and returns: %s" % json.dumps(what))
+    if not bad and real is not None:
+        return ({"clause": "well-formed-rejected", "site": real["site"]},
+                "well-formed direct call raises %s in %s (%s): %s" % (real["exc"], real["site"], real.get("msg", ""), json.dumps(what)))
+    return None
+
+
+# ------------------------------------------------------------------ beyond the statement's list (recorded, never judged)
+def outside_statement_observations(seed):
+    """inputs that the property text does not list; what the code does with them is written to the evidence file"""
+    V = _V.get()
+    C, J, D = V["C"], V["J"], V["D"]
+    data = data_matrix(seed)
+
+    def mk():
+        return J.GlobalHierarchicalModel([{"distribution": D.WeibullDistribution(2, 1.5)},
+                                          {"distribution": D.LogNormalDistribution(), "conditional_on": 0,
+                                           "parameters": {"mu": _dep(V), "sigma": _dep(V)}}])
+    lim = [(0.3, 3.3)] * 2
+    probes = {}
+    for a in (0, 1, -0.1, 1.5, float("nan")):
+        probes["IFORMContour(alpha=%r)" % a] = lambda a=a: C.IFORMContour(mk(), a, n_points=6)
+        probes["ISORMContour(alpha=%r)" % a] = lambda a=a: C.ISORMContour(mk(), a, n_points=6)
+        probes["HighestDensityContour(alpha=%r)" % a] = lambda a=a: C.HighestDensityContour(mk(), a, lim, 0.6)
+        probes["DirectSamplingContour(alpha=%r)" % a] = lambda a=a: C.DirectSamplingContour(mk(), a, n=500)
+    probes["IFORMContour(n_points=0)"] = lambda: C.IFORMContour(mk(), 0.1, n_points=0)
+    probes["IFORMContour(n_points=-3)"] = lambda: C.IFORMContour(mk(), 0.1, n_points=-3)
+    probes["DirectSamplingContour(n=0)"] = lambda: C.DirectSamplingContour(mk(), 0.1, n=0)
+    probes["DirectSamplingContour(deg_step=0)"] = lambda: C.DirectSamplingContour(mk(), 0.1, n=500, deg_step=0)
+    probes["HighestDensityContour(TransformedModel)"] = lambda: C.HighestDensityContour(
+        J.TransformedModel(mk(), _ident, _ident, _jac1), 0.3, lim, 0.6)
+    probes["fit(data of shape (N, 3, 1)) on a 1-dimensional model"] = lambda: J.GlobalHierarchicalModel(
+        [{"distribution": D.WeibullDistribution()}]).fit(np.stack([data[:, :1]] * 3, axis=1))
+    probes["HighestDensityContour(limits with min == max)"] = lambda: C.HighestDensityContour(
+        J.GlobalHierarchicalModel([{"distribution": D.WeibullDistribution(2, 1.5)}]), 0.3, [(2.0, 2.0)], 0.5)
+    probes["ISORMContour('string')"] = lambda: C.ISORMContour("string", 0.1)
+    probes["GHM([{'distribution': None}])"] = lambda: J.GlobalHierarchicalModel([{"distribution": None}])
+    probes["GHM([{'distribution': 'weibull'}])"] = lambda: J.GlobalHierarchicalModel([{"distribution": "weibull"}])
+    probes["GHM(parameters={'mu': 1.0, 'sigma': 2.0})"] = lambda: J.GlobalHierarchicalModel(
+        [{"distribution": D.WeibullDistribution()}, {"distribution": D.LogNormalDistribution(), "conditional_on": 0, "parameters": {"mu": 1.0, "sigma": 2.0}}])
+    probes["GHM(intervals=5)"] = lambda: J.GlobalHierarchicalModel([{"distribution": D.WeibullDistribution(), "intervals": 5}])
+    probes["GHM([None])"] = lambda: J.GlobalHierarchicalModel([None])
+    probes["GHM(conditional_on=True) at dimension 2"] = lambda: J.GlobalHierarchicalModel(
+        [{"distribution": D.WeibullDistribution()}, {"distribution": D.WeibullDistribution()},
+         {"distribution": D.LogNormalDistribution(), "conditional_on": True, "parameters": {"mu": _dep(V), "sigma": _dep(V)}}])
+    probes["fit(fit_descriptions as tuple with a None entry)"] = lambda: mk().fit(data[:, :2], ({"method": "mle"}, None))
+    probes["fit(data with a nan row)"] = lambda: mk().fit(np.r_[data[:, :2], [[np.nan, 1.0]]])
+    probes["pdf(point with 3 coordinates) on a 2-dimensional model"] = lambda: mk().pdf([[1.0, 2.0, 3.0]])
+    probes["pdf(point with 1 coordinate) on a 2-dimensional model"] = lambda: mk().pdf([[1.0]])
+    probes["marginal_cdf([nan], 0)"] = lambda: mk().marginal_cdf(np.array([np.nan]), 0)
+    probes["draw_sample(-1)"] = lambda: mk().draw_sample(-1)
+    probes["ExponentiatedWeibull.fit(wlsq, weights of wrong length)"] = lambda: D.ExponentiatedWeibullDistribution().fit(data[:, 0], "wlsq", np.ones(10))
+    probes["WidthOfIntervalSlicer(0.5, reference='middle') never used for slicing"] = lambda: V["I"].WidthOfIntervalSlicer(0.5, reference="middle")
+    out = {}
+    with warnings.catch_warnings():
+        warnings.simplefilter("ignore")
+        for k, f in probes.items():
+            try:
+                r = f()
+                extra = ""
+                co = getattr(r, "coordinates", None)
+                if isinstance(co, np.ndarray):
+                    extra = " coordinates %s%s" % (co.shape, " with nan" if co.size and np.isnan(co.astype(float)).any() else "")
+                elif isinstance(r, np.ndarray):
+                    extra = " %r" % r.tolist()[:3]
+                out[k] = "returns %s%s" % (type(r).__name__, extra)
+            except Exception as e:  # noqa
+                fr = _frames(e)
+                out[k] = "raises %s in %s" % (type(e).__name__, fr[-1][1] if fr else "?")
+    return out
+
+
 def replay(ctx, spec):
     CUR["seed"] = spec.get("seed", 0)
+    if "unit" in spec:
+        o = unit_oracle(spec, run_unit(spec, CUR["seed"]), CUR["seed"])
+        if o not in (None, "unjudgeable"):
+            print("  ", o[1])
+            return True
+        return False
     real = run_real(spec, spec.get("seed", 0))
     o = oracle(spec, real)
     if o not in (None, "unjudgeable"):
@@ -1068,19 +1542,44 @@ def valid_cases(ns, per_struct):
 
 
 def decorate_valid(spec, k, n):
-    """a well-formed session also evaluates and draws a contour"""
+    """a well-formed session also evaluates (every entry point) and draws a contour"""
     if k % 2 == 0:
-        spec["points"] = {"cdf": (n == 1 and k % 4 == 0), "pts": good_points(n, 1 + k % 3)}
+        entry = EVAL_ENTRIES[(k // 2) % 5]
+        pts = good_points(n, 1 + k % 3)
+        spec["points"] = {"entry": entry, "pts": pts[0] if (k % 3 == 0 and entry != "tm_empirical_cdf") else pts, "as_list": k % 4 == 0}
     if spec["fit"] is None:
         r = k % 5
         if r in (0, 1):
-            fams_ok = all(d["family"] != "VonMises" for d in spec["descs"])
-            spec["contour"] = good_hdc(n, k) if (fams_ok or good_hdc(n, k)["deltas"] is not None) else good_hdc(n, 0)
+            spec["contour"] = good_hdc(n, k)
+            spec["contour"]["limits_as"] = ["tuples", "lists", "ndarray"][k % 3]
+            spec["contour"]["deltas_as"] = ["list", "tuple", "ndarray"][(k // 3) % 3]
         elif r == 2:
             spec["contour"] = {"kind": "iform", "model": "ghm"}
         elif r == 3 and n == 2:
-            spec["contour"] = {"kind": ["direct", "and", "or"][k % 3]}
+            spec["contour"] = {"kind": ["direct", "and", "or"][k % 3], "sample": "two_columns" if (k // 3) % 2 else None}
+    else:
+        spec["fit"]["as_list"] = k % 3 == 0
+    if k % 7 == 3:
+        spec["descs_as_tuple"] = True
     return spec
+
+
+def two_d_controls():
+    """the 2-D-only contours on 2-dimensional models, without and with a supplied sample (controls of m_not_2d)"""
+    k = 0
+    for struct in ((None, None), (None, 0)):
+        for kind in ("direct", "and", "or"):
+            for smp in (None, "two_columns"):
+                k += 1
+                spec = base_spec(2, struct, [FAMILIES[k % 8], FAMILIES[(k + 3) % 8]], k, with_fit=False)
+                spec["contour"] = {"kind": kind, "sample": smp}
+                spec["gen"] = {"n": 2, "struct": list(struct), "control": True}
+                yield spec
+    # IFORM accepts a TransformedModel (one Monte-Carlo based computation, a few seconds)
+    spec = base_spec(2, (None, 0), ["Weibull", "LogNormal"], 0, with_fit=False)
+    spec["via"] = "transformed"
+    spec["contour"] = {"kind": "iform", "model": "transformed"}
+    yield spec
 
 
 def run(ctx):
@@ -1102,12 +1601,15 @@ def run(ctx):
             (2, (None, 0), ["Weibull", "LogNormal"], [("m_ppi_ref_not_callable", 0)], 0),
             (1, (None,), ["LogNormal"], [("m_first_conditional", 0)], 1)]
     gens += lead
+    # always on: every variant of the classes with many value variants and of the oracle-only classes, at every
+    # position (chain hierarchy; thorough: every hierarchy)
     for n in (1, 2, 3, 4):
         chain = tuple([None] + list(range(n - 1)))
-        for nm in sorted(NVARIANTS):
-            for pos in range(n):
-                for v in range(NVARIANTS[nm]):
-                    gens.append((n, chain, fams_for(n, FAMILIES[(n + pos + v) % 8], pos, v), [(nm, pos)], v))
+        for struct in ([chain] if quick else structures(n)):
+            for nm in sorted(NVARIANTS):
+                for pos in range(n):
+                    for v in range(NVARIANTS[nm]):
+                        gens.append((n, struct, fams_for(n, FAMILIES[(n + pos + v) % 8], pos, v), [(nm, pos)], v))
     if quick:
         by_inj = {}
         for g in singles([1, 2, 3, 4], full=False):
@@ -1144,12 +1646,42 @@ def run(ctx):
         if not inj:
             decorate_valid(spec, v, n)
         spec["seed"] = seed
-        key = json.dumps({k: spec[k] for k in ("descs", "fit", "points", "contour")}, sort_keys=True)
+        key = json.dumps({k: spec.get(k) for k in ("descs", "fit", "points", "contour", "via")}, sort_keys=True)
         if key in seen:
             continue
         seen.add(key)
         cases.append(spec)
-    ctx.notes["generated"] = {"requested": len(gens), "inapplicable_combinations": n_inapplicable, "distinct_sessions": len(cases)}
+    # well-formed controls right next to the malformed sessions: the same session without the malformation
+    n_controls = 0
+    per_cls = {}
+    for spec in list(cases):
+        if len(spec["mal"]) != 1:
+            continue
+        cls = spec["mal"][0]["cls"]
+        per_cls[cls] = per_cls.get(cls, 0) + 1
+        if quick and per_cls[cls] > (10 if spec["fit"] is not None else 25):
+            continue          # quick tier: the first controls of every class; thorough: all of them
+        c = control_of(spec)
+        if c is None:
+            continue
+        c["seed"] = seed
+        key = json.dumps({k: c.get(k) for k in ("descs", "fit", "points", "contour", "via")}, sort_keys=True)
+        if key in seen:
+            continue
+        seen.add(key)
+        cases.append(c)
+        n_controls += 1
+    for spec in two_d_controls():
+        spec["seed"] = seed
+        cases.append(spec)
+    # every predefined model as carrier (the real dictionaries returned by the getters, mutated)
+    n_pre = 0
+    for spec in predefined_cases():
+        spec["seed"] = seed
+        cases.append(spec)
+        n_pre += 1
+    ctx.notes["generated"] = {"requested": len(gens), "inapplicable_combinations": n_inapplicable, "distinct_sessions": len(cases),
+                              "well_formed_controls_of_single_malformations": n_controls, "predefined_model_sessions": n_pre}
 
     # ---- real runs
     import time
@@ -1184,24 +1716,48 @@ def run(ctx):
     # ---- correspondence
     shard = 300
     items = []
-    for s in range(0, len(cases), shard):
+    corr = [i for i, c in enumerate(cases) if not c.get("oracle_only")]      # oracle-only classes have no model counterpart
+    for s in range(0, len(corr), shard):
         body = ("From V.model Require Import Validate.\nLocal Open Scope string_scope.\nLocal Open Scope nat_scope.\n"
-                "Definition cases : list scenario := [\n" + ";\n".join(coq_scenario(c, seed) for c in cases[s:s + shard]) +
+                "Definition cases : list scenario := [\n" + ";\n".join(coq_scenario(cases[i], seed) for i in corr[s:s + shard]) +
                 "].\nEval vm_compute in map observe cases.\n")
         items.append(("cases_%d" % (s // shard), body))
+    # the entry points below the model, called directly
+    units = unit_cases(not quick)
+    t_unit = time.time()
+    unit_reals = []
+    for u in units:
+        try:
+            unit_reals.append(run_unit(u, seed))
+        except Exception as e:  # noqa
+            unit_reals.append({"phase": "unit", "exc": "HARNESS:" + type(e).__name__, "site": "?", "tag": "?", "pos": 0,
+                               "msg": traceback.format_exc()[-400:]})
+    t_unit = time.time() - t_unit
+    unit_prelude = ("From V.model Require Import Validate.\nLocal Open Scope string_scope.\nLocal Open Scope nat_scope.\n"
+                    "Definition obs (r : result) := match r with Ok => None | Err t p => Some (exc_of t, site_of t, t, p) end.\n")
+    for s in range(0, len(units), 400):
+        items.append(("units_%d" % (s // 400), unit_prelude + "Eval vm_compute in map obs [\n" +
+                      ";\n".join(coq_unit(u, seed) for u in units[s:s + 400]) + "].\n"))
     t_coq = time.time()
     outs = ctx.coq_eval_many(items, jobs=12)
-    ctx.notes["timing_s"] = {"real_runs": round(t_real, 1), "coq_vm_compute": round(time.time() - t_coq, 1)}
+    ctx.notes["timing_s"] = {"real_runs": round(t_real, 1), "direct_calls": round(t_unit, 1), "coq_vm_compute": round(time.time() - t_coq, 1)}
     models = [None] * len(cases)
     have = [False] * len(cases)
-    for k, o in enumerate(outs):
+    unit_models = [None] * len(units)
+    unit_have = [False] * len(units)
+    for (name, _), o in zip(items, outs):
         if o is None:
             continue
         terms = vlib.parse_term(o[0])
+        k = int(name.split("_")[1])
         for i, t in enumerate(terms):
-            idx = k * shard + i
-            models[idx] = model_obs(t, cases[idx])
-            have[idx] = True
+            if name.startswith("cases_"):
+                idx = corr[k * shard + i]
+                models[idx] = model_obs(t, cases[idx])
+                have[idx] = True
+            else:
+                unit_models[k * 400 + i] = unit_model_obs(t, units[k * 400 + i])
+                unit_have[k * 400 + i] = True
     ncmp = nmis = 0
     suspects = []
     unjudgeable = 0
@@ -1219,8 +1775,28 @@ def run(ctx):
             ctx.mismatch("session %d" % idx, "model %r / implementation %r / session %s" % (
                 models[idx], r, json.dumps({k2: spec[k2] for k2 in ("descs", "fit", "points", "contour")})[:900]))
             suspects.append(idx)
-    ctx.cov["programs"] = 1
+    n_ucmp = n_umis = 0
+    unit_suspects = []
+    for i, (u, r) in enumerate(zip(units, unit_reals)):
+        if not unit_have[i]:
+            continue
+        if r is not None and r["exc"].startswith("HARNESS"):
+            ctx.broken.append(("harness-crash", "run_unit", r["msg"]))
+            continue
+        if r is not None and r["tag"] == "?" and r["site"].endswith("._fit_mle"):
+            unjudgeable += 1
+            continue
+        n_ucmp += 1
+        if not same(unit_models[i], r):
+            n_umis += 1
+            ctx.mismatch("direct call %d" % i, "model %r / implementation %r / call %s" % (unit_models[i], r, json.dumps(u)[:600]))
+            unit_suspects.append(i)
+        ctx.count(json.dumps(u, sort_keys=True), bool(_resolve_slicer(u, seed)[2] if u["unit"] == "slicer" else u["bad"]))
+    ctx.cov["programs"] = 2
     ctx.notes["correspondence"] = {"sessions_compared": ncmp, "mismatches": nmis, "unjudgeable_engine_errors": unjudgeable,
+                                   "oracle_only_sessions": len(cases) - len(corr),
+                                   "direct_calls_compared": n_ucmp, "direct_call_mismatches": n_umis,
+                                   "direct_calls": {k: sum(1 for u in units if u["unit"] == k) for k in ("cond", "fit", "slicer", "cumsum")},
                                    "compared": "raised or not, phase, exception class, raising function, check, dimension"}
 
     # ---- search: property oracle, disagreeing sessions first
@@ -1246,8 +1822,20 @@ def run(ctx):
         o2 = oracle(small, run_real(small, seed))
         if o2 in (None, "unjudgeable"):
             small, o2 = cases[idx], (sig, msg)
-        ctx.violation(o2[0], "%s  [%d sessions of this kind]" % (o2[1], cnt),
-                      {k: small[k] for k in ("descs", "fit", "points", "contour", "mal", "seed")})
+        ctx.violation(o2[0], "%s  [%d sessions of this kind]" % (o2[1], cnt), {k: v for k, v in small.items() if k != "gen"})
+    ufound = {}
+    for i in unit_suspects + [j for j in range(len(units)) if j not in set(unit_suspects)]:
+        o = unit_oracle(units[i], unit_reals[i], seed)
+        if o in (None, "unjudgeable"):
+            continue
+        key = json.dumps(o[0], sort_keys=True)
+        if key not in ufound:
+            ufound[key] = (o, i, 1)
+        else:
+            ufound[key] = (ufound[key][0], ufound[key][1], ufound[key][2] + 1)
+    for key, (o, i, cnt) in ufound.items():
+        ctx.violation(o[0], "%s  [%d direct calls of this kind]" % (o[1], cnt), dict(units[i], seed=seed))
+    ctx.notes["outside_statement_observations"] = outside_statement_observations(seed)
     ctx.notes["oracle"] = {"sessions_judged": len(cases) - nunj, "unjudgeable": nunj, "violation_kinds": len(found)}
     ctx.cov["rule"] = ("sessions = well-formed 1-4 dimensional descriptions (every hierarchy cond[i] in {None, 0..i-1}) with 0, 1 or 2 injected "
                        "malformations (%d classes: model description, fit, slicer, evaluation point, HDC grid, 2-D / IFORM guards) at every "
